@@ -242,12 +242,43 @@ def decide(p, q, quats=(), maxdeg=None):
         CFG.maxdeg = old
 
 
+def _unify_half_angles(a, b):
+    """If sin/cos of an angle u and of u/2 both occur (on either side), express the full angle through the half
+    angle: sin u = 2 sin(u/2) cos(u/2), cos u = 2 cos(u/2)^2 - 1 (exact)."""
+    from .poly import deep_subs
+    from fractions import Fraction as Fr
+    for _ in range(3):
+        args = set()
+        for x in (a, b):
+            for at in all_atoms(x):
+                if at.kind in ("sin", "cos") and isinstance(at.key[0], Poly):
+                    args.add(at.key[0])
+        pairs = {u: u.scale(Fr(1, 2)) for u in args if u.scale(Fr(1, 2)) in args}
+        if not pairs:
+            return a, b, False
+
+        def f(at):
+            if at.kind in ("sin", "cos") and at.key[0] in pairs:
+                h = pairs[at.key[0]]
+                sh, ch = Poly.atom(Atom("sin", (h,))), Poly.atom(Atom("cos", (h,)))
+                return (sh * ch).scale(2) if at.kind == "sin" else (ch * ch).scale(2) - Poly.const(1)
+            return None
+        a, b = deep_subs(a, f), deep_subs(b, f)
+        return a, b, True
+    return a, b, False
+
+
 def _decide(p, q, quats):
     if p == q:
         return EQUAL
     a, b = normal(p, quats), normal(q, quats)
     if a == b:
         return EQUAL
+    a2, b2, changed = _unify_half_angles(a, b)
+    if changed:
+        a, b = normal(a2, quats), normal(b2, quats)
+        if a == b:
+            return EQUAL
     # clear denominators
     depth = 0
     while depth < 4:
